@@ -191,7 +191,7 @@ theorem Reader.run_len (capK maxDepth : Nat) (nk : K → Nat) (nc : Nat) (n : Na
             rw [hs]; exact ⟨rfl, h0'.mono (fun k => Nat.le_add_right _ _) (Nat.le_refl _)⟩
           | some m =>
             have hs : r.stepSC sc = { sc with cache := aset sc.cache r.key (m.containsOrAdd r.blk e).1,
-                                              evictions := sc.evictions + (m.containsOrAdd r.blk e).2.toNat } := by
+                                              evictions := sc.evictions + (m.containsOrAdd r.blk e).2.toNat, entryEv := sc.entryEv + (m.containsOrAdd r.blk e).2.toNat } := by
               unfold Reader.stepSC; rw [hpc]; simp only [hm]
             have hmm := h0'.maps r.key m hm
             have hne : (m.containsOrAdd r.blk e).2 = false :=
@@ -310,7 +310,7 @@ theorem Committer.step_clen (capK maxDepth : Nat) (nk : K → Nat) (nc : Nat) (s
       obtain ⟨k, e⟩ := a
       cases fr with
       | true =>
-        have hs : c.stepSC sc = { sc with evictions := sc.evictions + ((LRU.empty sc.capK : LRU B (Entry V)).add c.hash e).2.toNat } := by
+        have hs : c.stepSC sc = { sc with evictions := sc.evictions + ((LRU.empty sc.capK : LRU B (Entry V)).add c.hash e).2.toNat, entryEv := sc.entryEv + ((LRU.empty sc.capK : LRU B (Entry V)).add c.hash e).2.toNat } := by
           unfold Committer.stepSC; rw [hpc]
         have hp : c.stepPc sc = .keyPut (some ((LRU.empty sc.capK : LRU B (Entry V)).add c.hash e).1) ((k, e) :: t) := by
           unfold Committer.stepPc; rw [hpc]
@@ -333,7 +333,7 @@ theorem Committer.step_clen (capK maxDepth : Nat) (nk : K → Nat) (nc : Nat) (s
           rw [hs, hp]; exact ⟨rfl, h, trivial⟩
         | some m0 =>
           have hs : c.stepSC sc = { sc with cache := aset sc.cache k (m0.add c.hash e).1,
-                                            evictions := sc.evictions + (m0.add c.hash e).2.toNat } := by
+                                            evictions := sc.evictions + (m0.add c.hash e).2.toNat, entryEv := sc.entryEv + (m0.add c.hash e).2.toNat } := by
             unfold Committer.stepSC; rw [hpc]; simp only [hm0]
           have hp : c.stepPc sc = .keyPut none ((k, e) :: t) := by unfold Committer.stepPc; rw [hpc]
           have hm := h.maps k m0 hm0
@@ -455,6 +455,11 @@ def Op.isCommit : Op H K B V → Bool
   | .bcommit _ => true
   | _ => false
 
+/-- `StateCache.Remove` drops a whole version map: it counts as an eviction -/
+def Op.isRemove : Op H K B V → Bool
+  | .srem _ => true
+  | _ => false
+
 theorem BC.get_len (capK maxDepth : Nat) (nk : K → Nat) (nc : Nat) (sc : SC K B V) (bc : BC K B V) (k : K)
     (hroom : nk k + 1 ≤ capK) (h : Len sc capK maxDepth nk nc) :
     (bc.get sc k).1.evictions = sc.evictions ∧
@@ -467,6 +472,7 @@ theorem BC.get_len (capK maxDepth : Nat) (nk : K → Nat) (nc : Nat) (sc : SC K 
 theorem Sys.step_len (capK maxDepth : Nat) (nk : K → Nat) (nc : Nat) (s : Sys H K B V) (op : Op H K B V)
     (hroomK : ∀ k, nk k + (if op.touches k = true then 1 else 0) ≤ capK)
     (hroomC : nc + (if op.isCommit = true then 1 else 0) ≤ maxDepth)
+    (hnr : op.isRemove = false)
     (h : Len s.sc capK maxDepth nk nc) :
     (s.step op).1.sc.evictions = s.sc.evictions ∧
     Len (s.step op).1.sc capK maxDepth (fun k => nk k + (if op.touches k = true then 1 else 0))
@@ -528,6 +534,7 @@ theorem Sys.step_len (capK maxDepth : Nat) (nk : K → Nat) (nc : Nat) (s : Sys 
     cases alookup s.bcs hh with
     | none => exact ⟨rfl, same⟩
     | some bc => exact getcase k0 ht rfl _ (BC.get_len capK maxDepth nk nc s.sc bc k0 (roomOf k0 ht) h)
+  | srem k0 => simp [Op.isRemove] at hnr
   | qget b k0 =>
     have ht : ∀ k, (Op.qget b k0 : Op H K B V).touches k = decide (k = k0) := fun k => rfl
     exact getcase k0 ht rfl _ (SC.get_len capK maxDepth nk nc s.sc k0 b (roomOf k0 ht) h)
@@ -548,7 +555,8 @@ theorem Sys.step_len (capK maxDepth : Nat) (nk : K → Nat) (nc : Nat) (s : Sys 
 theorem Sys.run_noEviction (capK maxDepth : Nat) (ops : List (Op H K B V)) (s : Sys H K B V) (nk : K → Nat) (nc : Nat)
     (h : Len s.sc capK maxDepth nk nc)
     (hK : ∀ k, nk k + (ops.filter (fun o => o.touches k)).length ≤ capK)
-    (hC : nc + (ops.filter (fun o => o.isCommit)).length ≤ maxDepth) : NoEviction s ops := by
+    (hC : nc + (ops.filter (fun o => o.isCommit)).length ≤ maxDepth)
+    (hR : ∀ op ∈ ops, op.isRemove = false) : NoEviction s ops := by
   induction ops generalizing s nk nc with
   | nil => rfl
   | cons op rest ih =>
@@ -562,7 +570,7 @@ theorem Sys.run_noEviction (capK maxDepth : Nat) (ops : List (Op H K B V)) (s : 
       have := hC
       simp only [List.filter_cons] at this
       split at this <;> simp_all <;> omega
-    obtain ⟨he, hl⟩ := Sys.step_len capK maxDepth nk nc s op hk1 hc1 h
+    obtain ⟨he, hl⟩ := Sys.step_len capK maxDepth nk nc s op hk1 hc1 (hR op (by simp)) h
     have := ih (s.step op).1 _ _ hl
       (by
         intro k; have := hK k
@@ -572,6 +580,7 @@ theorem Sys.run_noEviction (capK maxDepth : Nat) (ops : List (Op H K B V)) (s : 
         have := hC
         simp only [List.filter_cons] at this
         split at this <;> simp_all <;> omega)
+      (fun o ho => hR o (by simp [ho]))
     unfold NoEviction at this
     rw [this, he]
 
